@@ -368,6 +368,27 @@ func ExecRun(t *testing.T, prop string, st Stratum, stIdx int, tape *simrt.Tape,
 				if strings.Contains(strings.ToLower(c.Name), "close") {
 					r.Fail("C09", "close-never-returned", frame, fmt.Sprintf("close call %s on %s (task %s) had not returned at quiescence after settle; blocked at %s\n%s", c.Name, c.Node, c.Task.ID, frame, shortStack(stk)))
 				}
+				if victimOf == "" && (strings.Contains(frame, "SendSync") || strings.Contains(frame, "go-statemachine")) {
+					// the call waits for the channel's state machine; the state machine's stage may itself be stuck behind a lock
+					for _, bt := range s.BlockedTasks() {
+						hs2 := simrt.HoldersOf(bt)
+						seen2 := map[*simrt.Task]bool{bt: true}
+						for len(hs2) > 0 {
+							nxt := simrt.HoldersOf(hs2[0])
+							if len(nxt) == 0 || seen2[hs2[0]] {
+								break
+							}
+							seen2[hs2[0]] = true
+							hs2 = nxt
+						}
+						if len(hs2) > 0 {
+							hst := s.StacksOf(hs2)
+							victimOf = "state-machine-wedged-behind:lock-held-by:" + firstLibFrameOf(hst[hs2[0].ID]) + "(" + hs2[0].BlockOn() + ")"
+							stk += "\n--- a state-machine stage waits for a lock held by task " + hs2[0].ID + ":\n" + shortStack(hst[hs2[0].ID])
+							break
+						}
+					}
+				}
 				if victimOf != "" {
 					// the root cause is the task that holds the lock for ever; name it, not the victim
 					r.Fail("C20", "call-never-returned", victimOf, fmt.Sprintf("call %s on %s (task %s) had not returned at quiescence after settle: it waits for a lock that is never released\n%s", c.Name, c.Node, c.Task.ID, shortStack(stk)))
